@@ -1858,6 +1858,15 @@ class Interp:
             if not all(isinstance(a, int) for a in args):
                 raise Unsupported("range over a symbolic size")
             return tuple(range(*args))
+        if name in ("itertools.product", "product"):
+            import itertools as _it
+            if not all(isinstance(a, (tuple, list)) for a in args):
+                raise Unsupported("itertools.product of a non-concrete "
+                                  "iterable")
+            rep = kw.get("repeat", 1) if isinstance(kw, dict) else 1
+            if not isinstance(rep, int):
+                raise Unsupported("itertools.product(repeat=<symbolic>)")
+            return tuple(_it.product(*args, repeat=rep))
         if name == "len":
             if isinstance(args[0], AArr):
                 if not args[0].shape:
